@@ -92,6 +92,14 @@ def gen_case(rng, big=False):
         elif r < 0.08:
             case['nop'] = True
             case['lens'] = []
+    if kind in ('strip', 'fan') and case['lens'] and rng.random() < 0.3:
+        # stitched strips / repeated fan vertices: some rows repeat their predecessor (the expansion only looks at positions, never at values)
+        st = []
+        for i, n in enumerate(case['lens']):
+            for j in range(1, n):
+                if rng.random() < 0.25:
+                    st.append([i, j])
+        case['stitch'] = st
     return case
 
 
@@ -109,6 +117,9 @@ def materialise(case):
     for n in case['lens']:
         ps.append([labels[(c + i) * k:(c + i + 1) * k] for i in range(n)])
         c += n
+    for i, j in case.get('stitch') or []:
+        if i < len(ps) and j < len(ps[i]):
+            ps[i][j] = list(ps[i][j - 1])
     tail = labels[total * k:]
     nsrc = base + total * k + extra + 1
     return ps, tail, nsrc
